@@ -9,7 +9,8 @@ EXPLANATION = ("TermFlow term identities on the value/slice/str allocation metho
                "reserved_base + i * size_of::<T>() where i is exactly the index handed to the callback (or produced by enumerate), the value written is that callback's result, one "
                "callback per slot and it precedes the write; (R3) copy discipline of grow/shrink/realloc (min(old,new) bytes, copy_nonoverlapping only with a disjointness proof) and "
                "the default Alloc::realloc copying min(old,new); (R5) no later arena operation hands a live block out again: every finger store that raises the finger (reclaim / "
-               "rewind) is gated by the is_last_allocation equality and bounded by the released block.")
+               "rewind) is gated by the is_last_allocation equality and bounded by the released block."
+               ' (R6) inventory: every public arena method returning a mutable reference is either one of the analysed initialisers or a thin forward to one with no raw operation of its own (fill_iter reserves exactly iter.len() slots).')
 RULE = "rule instance = (rule, method, site); distinct by (rule, method, site)"
 
 SLICE_METHODS = ['alloc_slice_copy', 'try_alloc_slice_copy', 'alloc_slice_clone', 'try_alloc_slice_clone', 'alloc_slice_fill_with', 'try_alloc_slice_fill_with', 'alloc_slice_try_fill_with']
